@@ -60,56 +60,119 @@ def run(prop="C19", tier="quick"):
         iset, clr = byname.get(base(d.get("randiset_fn", ""))), byname.get(base(d.get("randclear_fn", "")))
         if iset is None or clr is None:
             raise AnalysisBroken("R-RANDCOV: iset / clear function of %s not found in rand*.c" % tname)
-        # the private state struct: type of the pointer that receives the allocation in iset
-        stype = None
-        dstp = None
-        for b in iset["blocks"]:
-            for el in b["elems"]:
-                def f(n):
-                    nonlocal stype, dstp
-                    if n.get("k") == "binop" and n["op"] == "=" and n["l"].get("k") == "var" and "struct" in n["l"].get("t", "") + n["l"].get("ct", ""):
-                        r = n["r"]
-                        while isinstance(r, dict) and r.get("k") == "cast":
-                            r = r["e"]
-                        if isinstance(r, dict) and r.get("k") == "call" and r.get("callee") is None and r_alloc.akind(r) == "alloc":
-                            dstp = n["l"]
-                            stype = n["l"]["t"].replace("*", "").strip()
-                sa.walk(el["e"], f)
+        # the private state struct: type of the pointer that receives the allocation in iset - or in a unit-local helper that iset
+        # calls to obtain the new state (one level: `dstp = mt_state_new (srcp->mt, srcp->mti)`)
+        def find_alloc(fn):
+            hit = None
+            for b in fn["blocks"]:
+                for el in b["elems"]:
+                    def f(n):
+                        nonlocal hit
+                        if n.get("k") == "binop" and n["op"] == "=" and n["l"].get("k") == "var" and "struct" in n["l"].get("t", "") + n["l"].get("ct", ""):
+                            r = n["r"]
+                            while isinstance(r, dict) and r.get("k") == "cast":
+                                r = r["e"]
+                            if isinstance(r, dict) and r.get("k") == "call" and r.get("callee") is None and r_alloc.akind(r) == "alloc":
+                                hit = n["l"]
+                    sa.walk(el["e"], f)
+            return hit
+        views = []                      # (function, variable that names the new state there)
+        dstp = find_alloc(iset)
+        if dstp is not None:
+            views.append((iset, dstp))
+        else:
+            for b in iset["blocks"]:
+                for el in b["elems"]:
+                    def f2(n):
+                        if n.get("k") == "binop" and n["op"] == "=" and n["l"].get("k") == "var" and "struct" in n["l"].get("t", "") + n["l"].get("ct", ""):
+                            r = n["r"]
+                            while isinstance(r, dict) and r.get("k") == "cast":
+                                r = r["e"]
+                            if isinstance(r, dict) and r.get("k") == "call" and r.get("callee") in byname and byname[r["callee"]].get("static"):
+                                h = byname[r["callee"]]
+                                hv = find_alloc(h)
+                                if hv is not None and not views:
+                                    views.append((iset, n["l"]))
+                                    views.append((h, hv))
+                    sa.walk(el["e"], f2)
+        stype = views[0][1]["t"].replace("*", "").strip() if views else None
         if stype is None or stype not in records:
             raise AnalysisBroken("R-RANDCOV: cannot identify the state struct copied by %s (got %r)" % (iset["name"], stype))
+        dstp = views[0][1]
         rec = records[stype]
         written = collections.defaultdict(list)      # field -> [(line, index expr or None, rhs)]
         import r_assert
-        live = r_assert.reachable(iset)              # `if (LIMBS_PER_UI > 1)` arms are pruned by Clang when constant-false
-        for b in iset["blocks"]:
-            if b["id"] not in live:
-                continue
-            for el in b["elems"]:
-                e = el["e"]
+        for vfn, vvar in views:
+            live = r_assert.reachable(vfn)              # `if (LIMBS_PER_UI > 1)` arms are pruned by Clang when constant-false
+            walkers = {}                                # local pointer -> array field it was pointed at (dp = p->mt)
+            for b in vfn["blocks"]:                     # first pass: the walkers (block order is not execution order)
+                for el in b["elems"]:
+                    def g0(n, vvar=vvar):
+                        pairs = []
+                        if n.get("k") == "binop" and n["op"] == "=" and n["l"].get("k") == "var":
+                            pairs.append((n["l"]["id"], n["r"]))
+                        if n.get("k") == "decl":
+                            pairs += [(d_["var"]["id"], d_.get("init")) for d_ in n["decls"]]
+                        for vid_, r in pairs:
+                            while isinstance(r, dict) and r.get("k") == "cast":
+                                r = r["e"]
+                            if isinstance(r, dict) and r.get("k") == "member" and r["base"].get("k") == "var" and r["base"]["id"] == vvar["id"]:
+                                walkers[vid_] = r["field"]
+                    sa.walk(el["e"], g0)
+            for b in vfn["blocks"]:
+                if b["id"] not in live:
+                    continue
+                for el in b["elems"]:
+                    e = el["e"]
 
-                def g(n, el=el):
-                    if n.get("k") == "binop" and n["op"] == "=":
-                        l = n["l"]
-                        idx = None
-                        if l.get("k") == "index":
-                            idx, l = l["idx"], l["base"]
-                        if l.get("k") == "member" and l["base"].get("k") == "var" and l["base"]["id"] == dstp["id"]:
-                            written[l["field"]].append((el["line"], idx, n["r"]))
-                sa.walk(e, g)
-                if e.get("k") == "call" and e.get("args"):
-                    a0 = e["args"][0]
-                    while isinstance(a0, dict) and a0.get("k") in ("cast",):
-                        a0 = a0["e"]
-                    if isinstance(a0, dict) and a0.get("k") == "binop":
-                        a0 = a0["l"]
-                    if isinstance(a0, dict) and a0.get("k") == "member" and a0["base"].get("k") == "var" and a0["base"]["id"] == dstp["id"] \
-                            and e["params"] and not e["params"][0].get("pc"):
-                        written[a0["field"]].append((el["line"], "call", e))
+                    def g(n, el=el, vvar=vvar):
+                        if n.get("k") == "binop" and n["op"] == "=":
+                            l = n["l"]
+                            idx = None
+                            if l.get("k") == "index":
+                                idx, l = l["idx"], l["base"]
+                            if l.get("k") == "member" and l["base"].get("k") == "var" and l["base"]["id"] == vvar["id"]:
+                                written[l["field"]].append((el["line"], idx, n["r"]))
+                            # dp = p->mt  /  *dp++ = x  /  dp[i] = x : written through a walking pointer, coverage not decided
+                            r = n["r"]
+                            while isinstance(r, dict) and r.get("k") == "cast":
+                                r = r["e"]
+                            if n["l"].get("k") == "var" and isinstance(r, dict) and r.get("k") == "member" and r["base"].get("k") == "var" \
+                                    and r["base"]["id"] == vvar["id"]:
+                                walkers[n["l"]["id"]] = r["field"]
+                            tgt = n["l"]
+                            if tgt.get("k") == "unop" and tgt["op"] == "*":
+                                tgt = tgt["e"]
+                                while isinstance(tgt, dict) and tgt.get("k") in ("cast", "unop"):
+                                    tgt = tgt["e"]
+                            elif tgt.get("k") == "index":
+                                tgt = tgt["base"]
+                            if isinstance(tgt, dict) and tgt.get("k") == "var" and tgt["id"] in walkers and n["l"].get("k") != "var":
+                                written[walkers[tgt["id"]]].append((el["line"], "walk", n["r"]))
+                        if n.get("k") == "decl":
+                            for d_ in n["decls"]:
+                                r = d_.get("init")
+                                while isinstance(r, dict) and r.get("k") == "cast":
+                                    r = r["e"]
+                                if isinstance(r, dict) and r.get("k") == "member" and r["base"].get("k") == "var" and r["base"]["id"] == vvar["id"]:
+                                    walkers[d_["var"]["id"]] = r["field"]
+                    sa.walk(e, g)
+                    if e.get("k") == "call" and e.get("args"):
+                        a0 = e["args"][0]
+                        while isinstance(a0, dict) and a0.get("k") in ("cast",):
+                            a0 = a0["e"]
+                        if isinstance(a0, dict) and a0.get("k") == "binop":
+                            a0 = a0["l"]
+                        if isinstance(a0, dict) and a0.get("k") == "member" and a0["base"].get("k") == "var" and a0["base"]["id"] == vvar["id"] \
+                                and e["params"] and not e["params"][0].get("pc"):
+                            written[a0["field"]].append((el["line"], "call", e))
+        iset_views = [v[0] for v in views]
         conds = []
-        for b in iset["blocks"]:
-            t = b.get("term")
-            if t and t.get("cond"):
-                conds.append(sa.strip_expect(sa.effective_cond(t)))
+        for vfn in iset_views:
+            for b in vfn["blocks"]:
+                t = b.get("term")
+                if t and t.get("cond"):
+                    conds.append(sa.strip_expect(sa.effective_cond(t)))
         for fld in rec["fields"]:
             res["stats"]["state_fields"] += 1
             ws = written.get(fld["name"])
@@ -122,14 +185,16 @@ def run(prop="C19", tier="quick"):
                 n = fld["array"]
                 lits = {w[1]["v"] for w in ws if isinstance(w[1], dict) and w[1].get("k") == "int"}
                 loops = [w for w in ws if isinstance(w[1], dict) and w[1].get("k") == "var"]
-                calls = [w for w in ws if w[1] == "call"]
+                calls = [w for w in ws if w[1] in ("call", "walk")]
+                if any(w[1] == "walk" for w in ws):
+                    res["stats"]["array_coverage_undecided"] += 1
                 covered = set(lits)
                 bound_ok = False
                 for w in loops:
                     vid = w[1]["id"]
                     # the index must start at 0: every plain assignment to it is the literal 0
                     starts = []
-                    for b2 in iset["blocks"]:
+                    for b2 in [bb for vfn in iset_views for bb in vfn["blocks"]]:
                         for el2 in b2["elems"]:
                             def h(n):
                                 if n.get("k") == "binop" and n["op"] == "=" and n["l"].get("k") == "var" and n["l"]["id"] == vid:
@@ -159,7 +224,7 @@ def run(prop="C19", tier="quick"):
                 F.append(Finding(prop, "R-RANDCOV", iset["file"], iset["line"], iset["name"], "dst-not-set:%s" % need,
                                  "%s never stores %s" % (iset["name"], why)))
         # sizes: iset allocates what clear frees
-        a_sizes = {v for _, v in alloc_sizes(iset, ("alloc",))}
+        a_sizes = {v for vfn in iset_views for _, v in alloc_sizes(vfn, ("alloc",))}
         f_sizes = {v for _, v in alloc_sizes(clr, ("free",))}
         res["stats"]["size_pairs"] += 1
         if not a_sizes or not f_sizes or a_sizes != f_sizes or None in a_sizes:
